@@ -144,7 +144,7 @@ class Lab:
         rng = self.ctx.rng
         v6 = rng.random() < 0.5 if v6 is None else v6
         e = gen.endp(rng, self.cfg, v6)
-        f = Flow(self.ctx, e, gen.rnd_port(rng), gen.rnd_port(rng))
+        f = Flow.fresh(self.ctx, e)
         ck = f.syn()
         if ck is None:
             return None
@@ -352,7 +352,7 @@ def shard(ctx, budget_s, learn):
         cuts = sorted(set([len(pre)] + [rng.randrange(1, len(pre) + 1) for _x in range(rng.choice([0, 0, 1, 2]))]))
         cuts = [c for c in cuts if 0 < c < len(stream)]
         e = gen.endp(rng, cfg, rng.random() < 0.5)
-        f = Flow(ctx, e, gen.rnd_port(rng), gen.rnd_port(rng))
+        f = Flow.fresh(ctx, e)
         if f.syn() is None:
             continue
         ctx.stats["nosig_tcp_streams"] += 1
